@@ -204,6 +204,7 @@ type c03Out struct {
 	panicked  bool
 	timeouts  int         // read deadlines that expired on the attacked connection (no retransmission without one)
 	sentUnits [2][][]byte // datagrams as sent on the attacked connection
+	allUnits  []*simnet.Dgram // the same, both directions, in send order
 }
 
 // c03Execute runs the (possibly resumed) handshake with or without the faults.
@@ -270,6 +271,9 @@ func c03Execute(c *Case, src *vs.Src, p *c03Params, r *Result, baseline bool) *c
 		units := pair.WireUnits(true)
 		res.timeouts = w.K.Timeouts
 		res.sentUnits = units
+		if pair.Net != nil {
+			res.allUnits = pair.Net.SentLog()
+		}
 		for d := 0; d < 2; d++ {
 			if pair.Pipe != nil {
 				recs, _ := ref.ParseRecords(units[d][0], false)
@@ -418,6 +422,10 @@ func (c03) Run(c *Case, src *vs.Src) *Result {
 				// ClientHello and HelloVerifyRequest are exempt: a hello that the cookie check refuses is answered by a
 				// fresh HelloVerifyRequest and re-sent at once, without any timer
 				cookiePhase := d[q] == 22 && n > 0 && q+13 < len(d) && d[q+4] == 0 && (d[q+13] == 1 || d[q+13] == 3)
+				if cookiePhase && d[q+13] == 1 && !c03AnsweredByHVR(att.allUnits, f.Dir, f.N) {
+					// the damaged ClientHello was not refused with a fresh HelloVerifyRequest: the server went on with it
+					cookiePhase = false
+				}
 				// the header of a proper fragment (fragment length < message length) repeats what other fragments of
 				// the message say as well; which copy the receiver goes by is framing, like the record header: the
 				// reassembled message is what the transcript covers
@@ -446,4 +454,19 @@ func (c03) Run(c *Case, src *vs.Src) *Result {
 		}
 	}
 	return r
+}
+
+// c03AnsweredByHVR: is the first datagram the server sent after client datagram number n a HelloVerifyRequest?
+func c03AnsweredByHVR(log []*simnet.Dgram, dir, n int) bool {
+	seen := false
+	for _, d := range log {
+		if d.Dir == dir && d.Index == n {
+			seen = true
+			continue
+		}
+		if seen && d.Dir != dir {
+			return len(d.Data) > 13 && d.Data[0] == 22 && d.Data[13] == 3
+		}
+	}
+	return true // nothing came back at all: the hello was dropped
 }
